@@ -287,14 +287,15 @@ def allowance (op' : Nat) (ca : Bool) (s : Px) (m : Option Px) (d : Px) : Option
 
 /-- acceptance of the library's destination pixel `lib` against an evaluator (model or Spec) -/
 def judge (tol : Rat) (df : WFmt) (lib : List Nat) (eval : Px → Option Px → Px → Option Px)
-    (hullAllowed : Bool) (s : Px) (m : Option Px) (d : Px) : Option Verdict :=
+    (hullAllowed : Bool) (s : Px) (m : Option Px) (d : Px)
+    (evalNear : Px → Option Px → Px → Option Px := eval) : Option Verdict :=
   match eval s m d with
   | Option.none => Option.none
   | some v =>
     match acceptPixel tol df lib v with
     | Option.none => some .ok
     | some c =>
-      let alts := (perturbations s m d).filterMap (fun (s', m', d') => eval s' m' d')
+      let alts := (perturbations s m d).filterMap (fun (s', m', d') => evalNear s' m' d')
       if alts.any (fun v' => (acceptPixel tol df lib v').isNone) then some .okPerturbed
       else if hullAllowed then
         match decodeDest df lib with
